@@ -53,6 +53,14 @@ def parents():
     yield "two-ancillas+own-herald", c
 
 
+def _small_heralded(photons=0):
+    """a 3-mode block with one herald (input mode 0 -> output mode 2): two user-visible modes"""
+    import lightworks as lw
+    u = lw.Unitary(lw.random_unitary(3, seed=11))
+    u.herald(photons, 0, 2)
+    return u
+
+
 def rejected_calls(c):
     """(label, callable, expected exception names)"""
     import lightworks as lw
@@ -92,6 +100,16 @@ def rejected_calls(c):
         ("add heralded oversize", lambda: c.add(sub_h, 0), ("ModeRangeError",)),
         ("add mode out of range", lambda: c.add(lw.Circuit(1), n), ("ModeRangeError",)),
         ("add wrong type", lambda: c.add([1, 2], 0), ("TypeError",)),
+        # every refusal of add() against every kind of argument that fits: plain, grouped, heralded (a heralded argument makes add() insert ancilla
+        # modes and register heralds in the parent - a refusal after that point would leave them behind)
+        ("add bad name, heralded argument", lambda: c.add(_small_heralded(), 0, name=7), ("TypeError",)),
+        ("add bad name, heralded argument with photons", lambda: c.add(_small_heralded(1), 0, name=("a",)), ("TypeError",)),
+        ("add bad name, grouped argument", lambda: c.add(lw.Circuit(1), 0, group=True, name=7), ("TypeError",)),
+        ("add bad name, plain argument", lambda: c.add(lw.Circuit(1), 0, name=7), ("TypeError", "optional")),
+        ("add heralded, mode out of range", lambda: c.add(_small_heralded(), n), ("ModeRangeError",)),
+        ("add heralded, negative mode", lambda: c.add(_small_heralded(), -1), ("ModeRangeError",)),
+        ("add heralded, float mode", lambda: c.add(_small_heralded(), 0.5), ("TypeError",)),
+        ("add heralded, does not fit at offset", lambda: c.add(_small_heralded(), n - 1) if n >= 2 else c.add(_small_heralded(), n), ("ModeRangeError",)),
         ("plus different size", lambda: c + big, ("ModeRangeError", "NotImplementedError")),
         ("plus wrong type", lambda: c + 1, ("TypeError",)),
         ("n_modes assignment", lambda: setattr(c, "n_modes", 3), ("AttributeError",)),
